@@ -1871,6 +1871,32 @@ def route_table(ctx):
     ga = pyvc.find_function(atree, 'get_authenticator')
     rets = sorted(pyast.unparse(n.value) for n in pyast.walk(ga) if isinstance(n, pyast.Return))
     ctx.add(core.decided('routes/closed-world/every-authenticator-uses-the-wrappers-under-contract', not over and all(r[:-2] in [c.name for c in sub] for r in rets) and len(rets) >= 1, 'subclasses=%r overrides=%r get_authenticator returns %r' % ([c.name for c in sub], over, rets), kind='scan'))
+    # which authenticator guards the routes: the one that trusts every caller (single-tenant Terra deployments: no credentials
+    # are looked at, every request is a developer's) only when HAIL_TERRA carries a non-empty value - an unset or EMPTY variable
+    # (a chart value rendered as "") means the ordinary deployment, whose callers are checked against the auth service
+    def _environ(eng, st, args, kw, node):
+        if not args or args[0] != 'HAIL_TERRA':
+            raise core.Undecided('get_authenticator reads another variable than HAIL_TERRA')
+        dflt = args[1] if len(args) > 1 else kw.get('default')
+        setk = lambda k: (lambda s_: s_.env.__setitem__('TERRA', k))  # noqa: E731
+        raise Fork(node, [('variable-unset', None, 'value', dflt, setk('unset')), ('variable-empty', None, 'value', '', setk('empty')), ('variable-set', None, 'value', 'terra', setk('set'))])
+
+    def _mk(kind):
+        def model(eng, st, args, kw, node):
+            st.env['BUILT'] = kind
+            return z3.Const('authenticator_' + kind, pyvc.U)
+        return model
+
+    gc = Contract(path=AUTH, qualname='get_authenticator', ghost_init={'TERRA': "'none'", 'BUILT': "'none'"},
+                  calls={'os.environ.get': _environ, 'os.getenv': _environ, 'TrustedSingleTenantAuthenticator': _mk('trusting'), 'AuthServiceAuthenticator': _mk('checking')},
+                  ensures=[('every-caller-is-trusted-only-where-HAIL_TERRA-has-a-non-empty-value', "implies(BUILT == 'trusting', TERRA == 'set')"),
+                           ('otherwise-callers-are-checked-against-the-auth-service', "implies(TERRA != 'set', BUILT == 'checking')"),
+                           ('the-authenticator-built-is-the-one-returned', "result == (authenticator_trusting if BUILT == 'trusting' else authenticator_checking)")],
+                  setup=lambda eng, st: st.env.update(authenticator_trusting=z3.Const('authenticator_trusting', pyvc.U), authenticator_checking=z3.Const('authenticator_checking', pyvc.U)),
+                  raises={}, canaries=[('never-trusting', "BUILT != 'trusting'"), ('never-checking', "BUILT != 'checking'")])
+    ge = pyvc.Engine(ctx, gc).run()
+    ctx.add(core.decided('get_authenticator/no-call-outside-the-contract', not ge.unmodelled, repr(ge.unmodelled), kind='frame'))
+    ctx.under_contract(AUTH, 'get_authenticator')
     # composition of the wrappers: each inner `wrapped` is only reachable through authenticated_users_only
     comp = [
         (AUTH, 'Authenticator.authenticated_developers_only.wrap.wrapped', ['self.authenticated_users_only(redirect)', 'wraps(fun)'], [('Authenticator.authenticated_developers_only.wrap', 'wrapped'), ('Authenticator.authenticated_developers_only', 'wrap')]),
@@ -2034,7 +2060,7 @@ def build(ctx):
     ctx.undecided('nothing-changes for a rejected caller is decided for the statements of the front end (no write before / without the gate); effects of middlewares and of the asynchronous driver notification are not modelled')
 
 
-NATIVE_SCENARIOS = ('wrappers', 'membership', 'owner', 'routes', 'billing-listing', 'job-log', 'billing-jobs')
+NATIVE_SCENARIOS = ('wrappers', 'membership', 'owner', 'routes', 'billing-listing', 'job-log', 'billing-jobs', 'authenticator')
 
 
 def native_witness(ctx):
